@@ -221,7 +221,7 @@ theorem readPhase_w (cfg : Cfg) (s : State) :
     · exact ⟨id, id, SameApp.refl s, Nat.le_refl _⟩
   | cons c cs =>
     simp only
-    have h1 := dataReceived_w cfg { s with pendingIn := if c.length ≤ 1024 then cs else c.drop 1024 :: cs } (c.take 1024)
+    have h1 := dataReceived_w cfg { s with pendingIn := if c.length ≤ REACTOR_RECV then cs else c.drop REACTOR_RECV :: cs } (c.take REACTOR_RECV)
     exact ⟨fun h => h1.1 (winv_of_sameW h ⟨rfl, rfl, rfl, rfl, rfl⟩),
       fun h => h1.2.1 (qinv_of_same h ⟨rfl, rfl, rfl, rfl, rfl⟩ ⟨rfl, rfl, rfl, rfl, rfl⟩),
       ⟨h1.2.2.1.gen, h1.2.2.1.thr, h1.2.2.1.mid, h1.2.2.1.subs, h1.2.2.1.handed⟩, h1.2.2.2⟩
